@@ -179,7 +179,7 @@ type Shape struct {
 	AudioCodec   string // "" = aac, "g711a", "g711u", "opus" (no sequence header for non-AAC)
 	MidMeta     bool // a metadata message in the middle of a gop
 	Empties     bool // zero-length messages sprinkled in
-	TsMode      int  // 0 monotonic small; 1 across 0xFFFFFF; 2 near 2^32; 3 non-monotonic jitter
+	TsMode      int  // 0 monotonic small; 1 across 0xFFFFFF; 2 near 2^32; 3 non-monotonic jitter; 4 one forward jump ≥ 0xFFFFFF mid-stream
 	Sizes       []int
 	VideoCodec  string // "" = avc, "hevc" (classic codec id 12), "hevc-enh" (enhanced RTMP, 'hvc1'; frames without composition offset travel as CodedFramesX)
 	NoCts       bool   // never use composition offsets (enhanced HEVC: every frame, key frames included, is a CodedFramesX packet)
@@ -278,6 +278,16 @@ func BuildAt(r *rand.Rand, inc int, sh Shape, base int) []PubMsg {
 				out[meta-base].MetaIdx = meta
 			}
 			ts += 33
+		}
+	}
+	if sh.TsMode == 4 && len(out) > 8 {
+		// one forward jump of at least 0xFFFFFF ms in the middle of the stream (an encoder that was
+		// paused for hours, a wall-clock based source): a publisher may code it as a timestamp DELTA
+		// with the extended timestamp field
+		k := len(out)/2 + r.Intn(3)
+		jump := uint32(0xFFFFFF) + []uint32{0, 1, 100, 0x1000000}[r.Intn(4)]
+		for j := k; j < len(out); j++ {
+			out[j].Ts += jump
 		}
 	}
 	if sh.TsMode == 1 {
